@@ -204,6 +204,14 @@ func execXlate(c core.Case, out core.Case) {
 	tgt := core.Map(c["tgt"])
 	loc, ti := core.Bool(tgt["loc"]), core.Int(tgt["i"])
 	items := xItems(c["items"])
+	// indices into the abstract files are only meaningful if the files are in canonical form
+	for _, af := range []*AFile{f, g} {
+		ref := Abstract(Render(af))
+		ref.Imps, ref.Legacy = af.Imps, af.Legacy
+		if !sameAny(ToAny(ref), ToAny(af)) {
+			harnessBug("xlate: Abstract(Render(f)) differs from f (abstract file not canonical?)\n f  = %v\n f' = %v", core.Norm(ToAny(af)), core.Norm(ToAny(ref)))
+		}
+	}
 	env := synthEnv(f)
 	a, erra := buildSide(f, env, loc, ti, items)
 	b, errb := buildSide(g, env, loc, ti, items)
